@@ -144,6 +144,36 @@ def repeat_cases(rng, tier):
     return cases
 
 
+def shape_cases(rng, tier):
+    """actions whose precondition is of ONE kind only (only (in)equalities between parameters, only a forall, only a nested
+    'or', only numeric comparisons, empty ...; harness/guardgen.py), walked by random plans whose steps violate them (the same
+    object for both compared parameters) and satisfy them, both switch values"""
+    from ..guardgen import shape_preconditions
+    cases = []
+    for _ in range({"quick": 14, "thorough": 90}[tier]):
+        w = G.gen_world(rng, max_actions=2)
+        shapes = shape_preconditions(rng, w)
+        objs = G.gen_objects(rng, w)
+        calls = all_calls(rng, w, objs)
+        if not calls:
+            continue
+        st = G.gen_state(rng, w, objs)
+        base = {"domain_text": G.render(w.domain_tree("dom"), rng, True), "problem_text": G.problem_text(w, objs, st, domain="dom"),
+                "objects": [list(o) for o in objs], "init": st, "features": sorted(w.features), "numeric_actions": numeric_actions(w),
+                "guard_shapes": shapes}
+        same = [c for c in calls if c[1][-1] == c[1][-2]]
+        diff = [c for c in calls if c[1][-1] != c[1][-2]]
+        for _k in range(2):
+            plan = [rng.choice(same if (same and (i % 2 == 0 or not diff)) else diff) for i in range(rng.choice([3, 4, 5, 6]))]
+            rng.shuffle(plan)
+            noise = rng.random() < 0.4
+            lines = [render_line(rng, n, a, noise) for n, a in plan]
+            for allow in (False, True):
+                cases.append(dict(base, kind="guard-shape", lines=lines, calls=plan, allow=allow, strict=True, expect_raise=False,
+                                  noise=noise))
+    return cases
+
+
 def gen_cases(rng, tier):
     n_worlds = {"quick": 30, "thorough": 170}[tier]
     cases = []
@@ -333,7 +363,7 @@ def run(args):
         data = json.load(open(args.replay))
         cases = [data["input"]["case"]]
     else:
-        cases = corpus_cases() + fixture_cases(args.tier) + gen_cases(rng, args.tier) + repeat_cases(rng, args.tier)
+        cases = corpus_cases() + fixture_cases(args.tier) + gen_cases(rng, args.tier) + repeat_cases(rng, args.tier) + shape_cases(rng, args.tier)
     cfg = run_impl([{"op": "core.numeric_config"}], nproc=1)[0]
     hashseeds = [0] if args.tier == "quick" else [0, 1]
     all_cases, all_verdicts = [], ""
@@ -343,6 +373,7 @@ def run(args):
             "position_applicable": {}, "position_inapplicable": {}, "parse_plan_raised": 0, "raise_classes": {},
             "direct_refused": 0, "direct_returned": 0, "direct_other_error": 0, "domain_parse_raised": 0,
             "spec_judged": 0, "spec_skipped": 0, "features": {},
+            "guard_shapes": {"plans": 0, "steps_refused_unchanged": 0, "steps_executed": 0, "steps_forced": 0, "by_shape": {}},
             "repeated_calls": {"plans_with_a_call_executed_2+_times": 0, "plans_with_a_numeric_call_executed_2+_times": 0,
                                "plans_with_a_numeric_call_executed_twice_in_a_row": 0,
                                "plans_with_a_call_refused_then_executed": 0, "plans_with_a_call_executed_then_refused": 0,
@@ -389,6 +420,13 @@ def run(args):
                     dist["parse_plan_raised"] += 1
                     k = res["trace_raised"]["raised"]
                     dist["raise_classes"][k] = dist["raise_classes"].get(k, 0) + 1
+                if c["kind"] == "guard-shape":
+                    gs = dist["guard_shapes"]
+                    gs["plans"] += 1
+                    for sh in c.get("guard_shapes", []):
+                        gs["by_shape"][sh] = gs["by_shape"].get(sh, 0) + 1
+                    for s in res.get("steps") or []:
+                        gs["steps_executed" if s.get("applicable") else "steps_forced" if c["allow"] else "steps_refused_unchanged"] += 1
                 rc = dist["repeated_calls"]
                 hist = {}
                 for s in res.get("steps") or []:
